@@ -23,6 +23,10 @@ type Merger struct {
 
 	less    func(a, b *sam.Record) bool
 	readers []*reader
+
+	// err is an input's read error met while refilling
+	// the heap; it is returned by the next call to Read.
+	err error
 }
 
 type reader struct {
@@ -56,7 +60,7 @@ func NewMerger(less func(a, b *sam.Record) bool, src ...*Reader) (*Merger, error
 		return nil, io.EOF
 	}
 
-	m := &Merger{readers: make([]*reader, len(src))}
+	m := &Merger{readers: make([]*reader, 0, len(src))}
 
 	headers := make([]*sam.Header, len(src))
 	so := src[0].Header().SortOrder
@@ -87,15 +91,22 @@ func NewMerger(less func(a, b *sam.Record) bool, src ...*Reader) (*Merger, error
 		m.less = (*sam.Record).LessByCoordinate
 	}
 	for i, r := range src {
+		readers[i].id = i
+		readers[i].r = r
 		if m.less == nil {
-			readers[i].id = i
-			readers[i].r = r
-			m.readers[i] = &readers[i]
+			m.readers = append(m.readers, &readers[i])
 			continue
 		}
 		rec, err := r.Read()
-		readers[i] = reader{id: i, r: r, head: rec, err: err}
-		m.readers[i] = &readers[i]
+		if err == io.EOF {
+			// An empty input has no head to order.
+			continue
+		}
+		if err != nil {
+			return nil, err
+		}
+		readers[i].head = rec
+		m.readers = append(m.readers, &readers[i])
 	}
 	if m.less != nil {
 		heap.Init((*bySortOrderAndID)(m))
@@ -114,6 +125,9 @@ func (m *Merger) Header() *sam.Header {
 //
 // The Read behaviour will depend on the underlying Readers.
 func (m *Merger) Read() (rec *sam.Record, err error) {
+	if m.err != nil {
+		return nil, m.err
+	}
 	if len(m.readers) == 0 {
 		return nil, io.EOF
 	}
@@ -139,19 +153,18 @@ func (m *Merger) cat() (rec *sam.Record, err error) {
 
 func (m *Merger) nextBySortOrder() (rec *sam.Record, err error) {
 	reader := m.pop()
-	rec, err = reader.head, reader.err
+	rec = reader.head
 	reader.head, reader.err = reader.r.Read()
-	if reader.err == nil {
+	switch reader.err {
+	case nil:
 		m.push(reader)
-	}
-	if rec == nil {
-		return m.Read()
-	}
-	if err == io.EOF {
-		err = nil
+	case io.EOF:
+	default:
+		// Report the failure after the record already in hand.
+		m.err = reader.err
 	}
 	m.reassignReference(reader.id, rec)
-	return rec, err
+	return rec, nil
 }
 
 func (m *Merger) reassignReference(id int, rec *sam.Record) {
